@@ -84,6 +84,7 @@ def coroutine(f):
             r = run_generator(r)
         return Done(r)
 
+    wrapper.__wrapped__ = f  # Python 2's functools.wraps does not set it
     return wrapper
 
 
